@@ -12,7 +12,8 @@ pub trait Backend: Send + Sync + 'static {
     const VER: u32;
     /// whether its randomness goes through the getrandom-0.3 custom backend
     const GETRANDOM03: bool;
-    type V: SealingVersion<Local>
+    type V: 'static
+        + SealingVersion<Local>
         + SealingVersion<Public>
         + PieWrapVersion
         + PwWrapVersion
@@ -106,6 +107,30 @@ pub fn key_bytes<V: HasKey<K>, K: paseto_core::key::KeyType>(k: &Key<V, K>) -> V
 
 pub fn key_from_bytes<V: HasKey<K>, K: paseto_core::key::KeyType>(b: &[u8]) -> Result<Key<V, K>, paseto_core::PasetoError> {
     paseto_core::paserk::KeyText::<V, K>::from_raw_bytes(b).try_into()
+}
+
+/// Keys parsed once per thread and reused (a long-lived key, as a service holds it): state that an earlier call left
+/// behind in a key object, a thread-local or a library error queue is then still there for the next call.
+pub fn cached_key<V: HasKey<K> + 'static, K: paseto_core::key::KeyType>(b: &[u8]) -> Result<std::rc::Rc<Key<V, K>>, paseto_core::PasetoError> {
+    use std::any::{Any, TypeId};
+    use std::cell::RefCell;
+    use std::collections::HashMap;
+    thread_local! {
+        static CACHE: RefCell<HashMap<(TypeId, Vec<u8>), std::rc::Rc<dyn Any>>> = RefCell::new(HashMap::new());
+    }
+    let id = (TypeId::of::<Key<V, K>>(), b.to_vec());
+    if let Some(k) = CACHE.with(|c| c.borrow().get(&id).cloned()).and_then(|x| x.downcast::<Key<V, K>>().ok()) {
+        return Ok(k);
+    }
+    let k = std::rc::Rc::new(key_from_bytes::<V, K>(b)?);
+    CACHE.with(|c| {
+        let mut c = c.borrow_mut();
+        if c.len() > 4096 {
+            c.clear();
+        }
+        c.insert(id, k.clone() as std::rc::Rc<dyn Any>);
+    });
+    Ok(k)
 }
 
 pub fn errc(e: &paseto_core::PasetoError) -> &'static str {
